@@ -37,3 +37,11 @@ mixed op_alrr (mixed c, mixed i, mixed j, mixed r) { mixed x; x = (c[<i..<j] = r
 // dispatch-time type check failure with a caller-chosen value in the message (bad_argument)
 mixed bad_arg (mixed s) { return allocate (s); }
 mixed bad_arg2 (mixed s) { return clear_bit ("", s); }
+// the same opcodes applied to a TEMPORARY (c + j, j = empty container of the same kind: a fresh value whose only
+// reference is the stack slot, so the opcode's own free is the last one)
+mixed op_tindex (mixed c, mixed i, mixed j, mixed r)  { return (c + j)[i]; }
+mixed op_trindex (mixed c, mixed i, mixed j, mixed r) { return (c + j)[<i]; }
+mixed op_tne (mixed c, mixed i, mixed j, mixed r)     { return (c + j)[i..]; }
+mixed op_tre (mixed c, mixed i, mixed j, mixed r)     { return (c + j)[<i..]; }
+mixed op_tnn (mixed c, mixed i, mixed j, mixed r)     { return (c + j)[i..r]; }
+mixed op_trr (mixed c, mixed i, mixed j, mixed r)     { return (c + j)[<i..<r]; }
